@@ -990,7 +990,7 @@ func runReplay(path string) {
 func main() {
 	cfg = vh.ParseFlags("C14")
 	rep = vh.NewReport(cfg)
-	cases = vh.NewCases(cfg, "Run.Run_C14", 60)
+	cases = vh.NewCases(cfg, "Run.Run_C14", 150)
 	rep.Rule = "a build / serialisation / round trip counts when N > 0; fastReduction when n >= 2^32; a deserialisation when the input is non-empty; a builder chain or block when it has at least one entry"
 	rng := vh.NewRNG(cfg.Seed)
 	if cfg.Replay != "" {
